@@ -287,6 +287,8 @@ pub fn run_mode(opts: &Options, prop: &str) -> Report {
         let n = match (prop, opts.thorough()) {
             ("C03", false) => 40,
             ("C03", true) => 600,
+            ("C08", false) => 8,
+            ("C08", true) => 150,
             (_, false) => 80,
             (_, true) => 1500,
         };
@@ -307,6 +309,22 @@ pub fn run_mode(opts: &Options, prop: &str) -> Report {
             rep.sample(&format!("history-seed {} len {}: {}; steps {:?}", seed, len, sc.desc, sc.steps));
         }
         let sopts = ServerOpts::default();
+        // C08: the history is run once to count the store writes, then again with a crash in
+        // front of sampled writes (restart, convergence, ground truth)
+        let mut crash_points: Vec<Option<u64>> = vec![None];
+        let mut cp_i = 0;
+        while cp_i < crash_points.len() {
+        let crash_at = crash_points[cp_i];
+        cp_i += 1;
+        super::seed_client_randomness(*seed);
+        let writes = std::rc::Rc::new(std::cell::Cell::new(0u64));
+        let replay = |extra: String| {
+            let mut r = replay(extra);
+            if let Some(k) = crash_at {
+                r.push(format!("# crash in front of store write {}", k));
+            }
+            r
+        };
         let mut node = Node::new(&branches[0].chain.consensus, LAST_N, 2000, 1);
         let peer = PeerIndex::new(1);
         let mut now = branches[0].chain.tip().timestamp() + 5000;
@@ -330,6 +348,17 @@ pub fn run_mode(opts: &Options, prop: &str) -> Report {
         let mut serving = 0usize;
         let mut aborted: Option<String> = None;
         let mut rolled_back = false;
+        // the writes of the steps are counted (the first start and set_scripts have their own
+        // crash enumeration in sync.rs)
+        {
+            let w = writes.clone();
+            crate::verif_hooks::set_before_write(Some(Box::new(move |_site| {
+                w.set(w.get() + 1);
+                if Some(w.get()) == crash_at {
+                    panic!("simulated crash at store write {}", w.get());
+                }
+            })));
+        }
         'steps: for step in &sc.steps {
             rep.evaluations += 1;
             match step {
@@ -436,14 +465,44 @@ pub fn run_mode(opts: &Options, prop: &str) -> Report {
                 rep.violate(&format!("{}|tip-unknown", prop), "the stored tip is on no branch the peer ever served", replay(format!("# after step {:?}", step)));
             }
         }
-        if rolled_back {
-            rep.nontrivial.insert(fnv(&format!("{}:{}", seed, len)));
+        crate::verif_hooks::set_before_write(None);
+        if crash_at.is_none() {
+            if rolled_back {
+                rep.nontrivial.insert(fnv(&format!("{}:{}", seed, len)));
+            }
+            for _ in 0..lines.len() {
+                owner.push(hi);
+            }
+            all_lines.extend(lines);
+            all_impls.extend(impls);
+            if prop == "C08" {
+                // crash points: every write if there are few, else a sample
+                let total = writes.get();
+                let mut r2 = Rng::new(*seed ^ 0xc8c8);
+                let ks: BTreeSet<u64> = if opts.thorough() || total <= 30 { (1..=total).collect() } else { (0..30).map(|_| r2.range(1, total)).collect() };
+                crash_points.extend(ks.into_iter().map(Some));
+            }
+        } else {
+            rep.evaluations += 1;
+            match &aborted {
+                Some(m) if m.contains("simulated crash") => {
+                    rep.count_class("crash:injected");
+                    aborted = None;
+                    if let Err(e) = catch(|| node.restart()) {
+                        rep.violate(
+                            "C08|store-unusable-after-crash|fork-history",
+                            "the client aborts at start-up after a crash",
+                            replay(format!("# start-up panic: {}", e.chars().take(200).collect::<String>())),
+                        );
+                        continue;
+                    }
+                }
+                _ => {
+                    // the crash point was not reached (or the run ended otherwise): nothing new
+                    continue;
+                }
+            }
         }
-        for _ in 0..lines.len() {
-            owner.push(hi);
-        }
-        all_lines.extend(lines);
-        all_impls.extend(impls);
 
         if let Some(msg) = aborted {
             if msg.contains("long fork detected") {
@@ -560,7 +619,9 @@ pub fn run_mode(opts: &Options, prop: &str) -> Report {
         if !extra.is_empty() {
             rep.violate(&format!("{}|cell-extra", prop), "after the reorganisation a cell is reported live that is not live on the new chain", replay(format!("# extra: {:?}", extra)));
         }
+        } // crash points
     }
+    crate::verif_hooks::set_before_write(None);
     ckb_systemtime::faketime().disable_faketime();
     let answers = run_model(opts, "sync", &all_lines);
     let mut bad = BTreeSet::new();
